@@ -165,7 +165,7 @@ class RaceControl:
 
 def run_race(schedule, hosts, cores, behaviour, chooser, offsets=None, on_error="continue", horizon=600.0, cfg_extra=None,
              faults=None, test_mode=False, on_sim=None, shutdown_after=True, store=False, max_steps=20000, track_plugin_hook=None,
-             rc_factory=None, schedule_track=None, linger=0.0, line_preempt=False):
+             rc_factory=None, schedule_track=None, linger=0.0, line_preempt=False, top_factory=None):
     """runs one race under the given chooser.  Returns Race(status, rc, log, sim, ...)"""
     s = setup()
     driver = s["driver"]
@@ -183,12 +183,18 @@ def run_race(schedule, hosts, cores, behaviour, chooser, offsets=None, on_error=
     r.error = None
     try:
         try:
-            daddr = sim.create_actor(driver.DriverActor, parent=sim.external)
             mstore = None
-            if store:
-                mstore = s["metrics"].InMemoryMetricsStore(cfg)
-                mstore.open("verif-race", datetime.datetime(2026, 1, 1), "verif", "c", "external", create=True)
-            rc = rc_factory(sim, cfg, trk, daddr, mstore) if rc_factory else RaceControl(sim, cfg, trk, daddr, mstore)
+            if top_factory is not None:
+                # the real race control actor is the top of the hierarchy (it creates mechanic and driver itself); the environment is
+                # what racecontrol.race() does: ask Setup, wait for the first answer, tell the actor to exit
+                rc = top_factory(sim, cfg, trk)
+                daddr = rc.addr
+            else:
+                daddr = sim.create_actor(driver.DriverActor, parent=sim.external)
+                if store:
+                    mstore = s["metrics"].InMemoryMetricsStore(cfg)
+                    mstore.open("verif-race", datetime.datetime(2026, 1, 1), "verif", "c", "external", create=True)
+                rc = rc_factory(sim, cfg, trk, daddr, mstore) if rc_factory else RaceControl(sim, cfg, trk, daddr, mstore)
             r.rc = rc
             r.driver_addr = daddr
             seen = [0]
